@@ -18,8 +18,8 @@ def before(m):
 
 def key(name):
   pid, rest = name.split('-', 1)
-  r2 = rest.startswith('r2-')
-  return (pid, 2 if r2 else 1, int(rest.split('-')[-1]))
+  m = re.match(r'r(\d+)-', rest)
+  return (pid, int(m.group(1)) if m else 1, int(rest.split('-')[-1]))
 
 
 def main():
@@ -33,8 +33,8 @@ def main():
   nno = sum(before(m) == 'no' for _, _, m in rows)
   n1 = sum(k[1] == 1 for k, _, _ in rows)
   out = ['### 12.5 Seeded changes (independent sub-agents, property text only) and which checks catch them', '',
-         f'{n} changes in two rounds ({n1} + {n - n1}) were produced by fresh sub-agents that saw only the property text and their own scratch',
-         'worktree (round 2 was additionally told which mechanisms round 1 had used, so as to get different ones). Each was confirmed by',
+         f'{n} changes in three rounds ({n1} in the first) were produced by fresh sub-agents that saw only the property text and their own scratch',
+         'worktree (rounds 2 and 3 were additionally told which mechanisms round 1 had used, so as to get different ones; round 3 covered twelve properties). Each was confirmed by',
          '`tools/confirm_seed.sh` (patch applies; demo fails with / passes without; related pinned tests still pass) and is stored under',
          f'`seeded/<id>/`. Column `before` = would the check have caught it as it was before the change was known ({nno} of {n}',
          'would not). For the round-2 changes of the non-physics properties the checks were hardened from the agents\' DESCRIPTIONS before',
